@@ -300,6 +300,44 @@ impl AOracle for Oracle {
             }
         }
         if let Some(pr) = layout::parse_report(&s.bytes) {
+            // ... nor one XOR away: the 32-byte public fields of a report (encrypted message C, encrypted coins D,
+            // tag, the two halves of J) must not combine, two or three at a time, to a secret. (Two ciphertexts
+            // under one keystream, or coins that are public, give exactly that.)
+            let mut fields: Vec<(&str, Vec<u8>)> = Vec::new();
+            for (n, f) in [("C", pr.share.c.clone()), ("D", pr.share.d.clone()), ("tag", pr.tag.clone())] {
+                if f.len() == 32 {
+                    fields.push((n, f));
+                }
+            }
+            if pr.share.j.len() == 64 {
+                fields.push(("J[..32]", pr.share.j[..32].to_vec()));
+                fields.push(("J[32..]", pr.share.j[32..].to_vec()));
+            }
+            let (r0x, r1x, _, keyx) = derive_secrets(&rnd, &g.epoch);
+            let secrets: Vec<(&str, Vec<u8>)> = vec![("key seed r0", r0x), ("coins r1", r1x), ("client randomness", rnd.to_vec()), ("encryption key", keyx)];
+            let nf = fields.len();
+            for mask in 1u32..(1 << nf) {
+                let ones = mask.count_ones();
+                if !(2..=3).contains(&ones) {
+                    continue;
+                }
+                let mut x = vec![0u8; 32];
+                let mut names: Vec<&str> = Vec::new();
+                for (i, (n, f)) in fields.iter().enumerate() {
+                    if mask & (1 << i) != 0 {
+                        for (a, b) in x.iter_mut().zip(f.iter()) {
+                            *a ^= *b;
+                        }
+                        names.push(n);
+                    }
+                }
+                for (sn, sv) in &secrets {
+                    if x[..sv.len().min(32)] == sv[..sv.len().min(32)] {
+                        return Err(Violation::new("c02.wire_secret", "xor_of_public_fields", format!("encoded report {:?} (t={}): {} = the {}: a single report opens itself", s.id, g.threshold, names.join(" xor "), sn)));
+                    }
+                }
+            }
+            ctx.stats.probe("xor_combinations_of_public_fields_checked");
             if pr.share.x.is_zero() {
                 return Err(Violation::new("c02.wire_secret", "share_point_zero", format!("report {:?} (t={}) carries a share at x = 0: its share value IS the sharing key", s.id, g.threshold)));
             }
